@@ -1,0 +1,113 @@
+//go:build verif
+
+package file
+
+import (
+	"sort"
+	"sync"
+
+	"github.com/ozontech/file.d/metric"
+	"github.com/ozontech/file.d/pipeline"
+	"github.com/prometheus/client_golang/prometheus"
+	"go.uber.org/atomic"
+	"go.uber.org/zap"
+)
+
+// Verification-only driver for property C07: the real offsetDB.save / load / parse and the real
+// jobProvider.commit on job tables the harness supplies. Add-only; not referenced by production code.
+
+type VerifC07Stream struct {
+	Name   string
+	Offset int64
+}
+
+type VerifC07Job struct {
+	Filename  string
+	Inode     uint64
+	SourceID  uint64
+	Timestamp int64
+	Streams   []VerifC07Stream
+}
+
+func verifC07Jobs(table []VerifC07Job) map[pipeline.SourceID]*Job {
+	jobs := make(map[pipeline.SourceID]*Job, len(table))
+	for _, t := range table {
+		j := &Job{
+			filename: t.Filename,
+			inode:    inodeID(t.Inode),
+			sourceID: pipeline.SourceID(t.SourceID),
+			mu:       &sync.Mutex{},
+		}
+		j.eofReadInfo.setUnixNanoTimestamp(t.Timestamp)
+		for _, s := range t.Streams {
+			j.offsets.Set(pipeline.StreamName(s.Name), s.Offset)
+		}
+		jobs[j.sourceID] = j
+	}
+	return jobs
+}
+
+func verifC07Table(offsets fpOffsets) []VerifC07Job {
+	out := make([]VerifC07Job, 0, len(offsets))
+	for id, io := range offsets {
+		j := VerifC07Job{Filename: io.filename, SourceID: uint64(id), Timestamp: io.lastReadTimestamp}
+		if io.sourceID != id {
+			j.Filename = "<sourceID field differs from key>"
+		}
+		for name, off := range io.streams {
+			j.Streams = append(j.Streams, VerifC07Stream{Name: string(name), Offset: off})
+		}
+		sort.Slice(j.Streams, func(a, b int) bool { return j.Streams[a].Name < j.Streams[b].Name })
+		out = append(out, j)
+	}
+	sort.Slice(out, func(a, b int) bool { return out[a].SourceID < out[b].SourceID })
+	return out
+}
+
+// VerifC07Save runs the real offsetDB.save on the table (one Job per row, streams in the given order).
+func VerifC07Save(curFile, tmpFile string, table []VerifC07Job) {
+	newOffsetDB(curFile, tmpFile).save(verifC07Jobs(table), &sync.RWMutex{})
+}
+
+// VerifC07Load runs the real offsetDB.load; rows sorted by source id, streams by name.
+func VerifC07Load(curFile string) ([]VerifC07Job, error) {
+	offsets, err := newOffsetDB(curFile, curFile+".atomic").load()
+	if err != nil {
+		return nil, err
+	}
+	return verifC07Table(offsets), nil
+}
+
+// VerifC07Parse runs the real offsetDB.parse on a byte string.
+func VerifC07Parse(content string) ([]VerifC07Job, error) {
+	offsets, err := newOffsetDB("", "").parse(content)
+	if err != nil {
+		return nil, err
+	}
+	return verifC07Table(offsets), nil
+}
+
+// VerifC07Provider: a job provider holding the table, for runs of the real commit against the real save.
+type VerifC07Provider struct {
+	jp *jobProvider
+}
+
+func VerifC07NewProvider(curFile, tmpFile string, table []VerifC07Job) *VerifC07Provider {
+	ctl := metric.NewCtl("verif_c07", prometheus.NewRegistry(), 0, 0)
+	jp := &jobProvider{
+		config:                         &Config{OffsetsFile: curFile, OffsetsFileTmp: tmpFile},
+		offsetDB:                       newOffsetDB(curFile, tmpFile),
+		jobs:                           verifC07Jobs(table),
+		jobsMu:                         &sync.RWMutex{},
+		offsetsCommitted:               &atomic.Int64{},
+		logger:                         zap.NewNop().Sugar(),
+		possibleOffsetCorruptionMetric: ctl.RegisterCounter("c07a", "verif"),
+	}
+	return &VerifC07Provider{jp: jp}
+}
+
+// Commit calls the real jobProvider.commit (persistence mode async: no save inside).
+func (p *VerifC07Provider) Commit(e *pipeline.Event) { p.jp.commit(e) }
+
+// Save calls the real offsetDB.save on the provider's live job table.
+func (p *VerifC07Provider) Save() { p.jp.offsetDB.save(p.jp.jobs, p.jp.jobsMu) }
